@@ -529,4 +529,144 @@ theorem runOps_safe (ops : List Op) (h : Heap) (hI : Inv h []) (hb : h.bad = fal
     have := runOp_safe h op hI hb
     exact ih _ this.2 this.1
 
+/-! ### no leak: a live object always has a positive count (so, with `Inv`, at least one handle) -/
+
+/-- every object whose storage is allocated has a count of at least 1 -/
+def Pos (h : Heap) : Prop := ∀ o, aliveAt h o = true → 0 < rcAt h o
+
+theorem release_pos (f : Nat) (w : List Nat) (h : Heap) (hP : Pos h) : Pos (release f w h).1 := by
+  induction f generalizing w h with
+  | zero => simpa [release] using hP
+  | succ f ih =>
+    cases w with
+    | nil => simpa [release] using hP
+    | cons o w =>
+      simp only [release]
+      cases ho : h.objs[o]? with
+      | none => exact hP
+      | some ob =>
+        simp only []
+        by_cases hc : (!ob.alive || ob.rc == 0) = true
+        · rw [if_pos hc]; exact hP
+        · rw [if_neg hc]
+          have hal : ob.alive = true := by
+            cases hx : ob.alive with
+            | true => rfl
+            | false => simp [hx] at hc
+          have hr0 : ob.rc ≠ 0 := by
+            intro e; simp [e] at hc
+          by_cases h1 : (ob.rc == 1) = true
+          · rw [if_pos h1]
+            apply ih
+            intro p hp
+            rw [aliveAt_set h o ob _ ho] at hp
+            rw [rcAt_set h o ob _ ho]
+            by_cases hpo : p = o
+            · simp [hpo] at hp
+            · simp only [hpo, if_false] at hp ⊢; exact hP p hp
+          · rw [if_neg h1]
+            apply ih
+            intro p hp
+            rw [aliveAt_set h o ob _ ho] at hp
+            rw [rcAt_set h o ob _ ho]
+            by_cases hpo : p = o
+            · simp only [hpo, if_true]
+              have : ob.rc ≠ 1 := by intro e; simp [e] at h1
+              show 0 < ob.rc - 1
+              omega
+            · simp only [hpo, if_false] at hp ⊢; exact hP p hp
+
+theorem incr_pos (h : Heap) (s : Nat) (hP : Pos h) : Pos (incr h s) := by
+  unfold incr
+  cases ho : h.objs[s]? with
+  | none => exact hP
+  | some ob =>
+    simp only []
+    by_cases ha : ob.alive = true
+    · rw [if_pos ha]
+      intro p hp
+      rw [aliveAt_set h s ob _ ho] at hp
+      rw [rcAt_set h s ob _ ho]
+      by_cases hps : p = s
+      · simp only [hps, if_true]; show 0 < ob.rc + 1; omega
+      · simp only [hps, if_false] at hp ⊢; exact hP p hp
+    · rw [if_neg ha]; exact hP
+
+theorem writeLoc_pos (h : Heap) (l : Loc) (t : Nat) (hP : Pos h) : Pos (writeLoc h l t) := by
+  cases l with
+  | root i => exact hP
+  | inObj o i =>
+    cases ho : h.objs[o]? with
+    | none => simpa [writeLoc, ho] using hP
+    | some ob =>
+      have hw : writeLoc h (Loc.inObj o i) t = { h with objs := h.objs.set o ⟨ob.rc, ob.alive, ob.inner.set i t⟩ } := by
+        simp only [writeLoc, ho]
+      rw [hw]
+      intro p hp
+      rw [aliveAt_set h o ob _ ho] at hp
+      rw [rcAt_set h o ob _ ho]
+      by_cases hpo : p = o
+      · subst hpo
+        simp only [if_true] at hp ⊢
+        have ha : aliveAt h p = true := by unfold aliveAt; simp [ho]; exact hp
+        have := hP p ha
+        unfold rcAt at this; simpa [ho] using this
+      · simp only [hpo, if_false] at hp ⊢; exact hP p hp
+
+theorem assign_pos (h : Heap) (dst src : Loc) (hP : Pos h) : Pos (assign true h dst src) := by
+  unfold assign
+  by_cases hb : h.bad = true
+  · simp only [hb, if_true]; exact hP
+  · simp only [hb]
+    by_cases he : dst = src
+    · simp only [he, if_true]; exact hP
+    · simp only [he, if_false, if_true]
+      cases readLoc h dst with
+      | none => exact hP
+      | some d =>
+        simp only []
+        cases readLoc h src with
+        | none => exact hP
+        | some s =>
+          simp only []
+          by_cases hb1 : (incr h s).bad = true
+          · simp only [hb1, if_true]; exact incr_pos h s hP
+          · simp only [hb1]
+            exact release_pos _ _ _ (writeLoc_pos _ dst s (incr_pos h s hP))
+
+theorem dropRoot_pos (h : Heap) (hP : Pos h) : Pos (dropRoot h) := by
+  unfold dropRoot
+  by_cases hb : h.bad = true
+  · simp only [hb, if_true]; exact hP
+  · simp only [hb]
+    cases h.roots.getLast? with
+    | none => exact hP
+    | some d => exact release_pos _ _ _ hP
+
+theorem runOps_pos (ops : List Op) (h : Heap) (hP : Pos h) : Pos (runOps true h ops) := by
+  induction ops generalizing h with
+  | nil => exact hP
+  | cons op ops ih =>
+    apply ih
+    cases op with
+    | drop => exact dropRoot_pos h hP
+    | assign d s =>
+      cases hd : resolve h d with
+      | none => simpa [runOp, hd] using hP
+      | some dl =>
+        cases hs : resolve h s with
+        | none => simpa [runOp, hd, hs] using hP
+        | some sl => simpa [runOp, hd, hs] using assign_pos h dl sl hP
+
+theorem build_pos (descr : List (List Nat)) (roots : List Nat) : Pos (build descr roots) := by
+  unfold build
+  apply release_pos
+  intro o ho
+  unfold aliveAt at ho
+  unfold rcAt
+  simp only [List.getElem?_map] at ho ⊢
+  cases hr : (List.range descr.length)[o]? with
+  | none => simp [hr] at ho
+  | some b => simp [hr]
+
 end AslProofs.RcNest
